@@ -46,7 +46,8 @@ def programs(tier, seed=0):
     # rules
     for rt, eq, freq in (("additive", "C1 = A + B_x", "repeated"), ("assignment", "B_x = kq*A + 1", "repeated"),
                          ("assignment", "B_x = kq*A + t", "dt"), ("assignment", "C1 = 2*A", "start"),
-                         ("assignment", "C1 = A + kq", 2.5), ("assignment", "kq = A + 1", "repeated"),
+                         ("assignment", "C1 = A + kq", 2.5), ("assignment", "C1 = 3*A", 0), ("additive", "C1 = A + B_x", 0.0),
+                         ("assignment", "kq = A + 1", "repeated"),
                          ("additive", "C1 = A + A", "dt")):
         out.append(dict(kind="rule", rtype=rt, eq=eq, freq=freq))
     if tier == "quick":
